@@ -575,6 +575,9 @@ def decorate(xml, rng, feats):
 
     # ---- explicit tri-state attributes that contradict (or merely repeat) what the reader infers from the range
     if feats.get("tristate"):
+        trng = np.random.default_rng(int(feats["tristate"]))     # own stream: the rest of the decoration does not depend on this block
+        P = lambda p: bool(trng.random() < p)
+        pick = lambda seq: seq[int(trng.integers(0, len(seq)))]
         pinned_j = {e.get("joint") for sec in root.iter("sensor") for e in sec if e.tag.startswith("jointlimit")}
         pinned_t = {e.get("tendon") for sec in root.iter("sensor") for e in sec if e.tag.startswith("tendonlimit")}
         n = 0
@@ -610,6 +613,10 @@ def decorate(xml, rng, feats):
                     n += 1
         if n:
             tags.add("tristate_flipped")
+        P = lambda p: bool(rng.random() < p)
+
+        def pick(seq):
+            return seq[int(rng.integers(0, len(seq)))]
 
     # ---- frames (named / unnamed / childclass) and replicate
     if feats.get("frames"):
@@ -1264,6 +1271,68 @@ def fusestatic_counterfactual(L, src, digits):
     return r
 
 
+# ---- fusestatic: reference ids resolved through the name->id maps that FuseStatic leaves stale
+
+_STALE_FIELDS = {"pair": ("pair_geom1", "pair_geom2", "pair_signature"), "tuple": ("tuple_objid",), "sensor": ("sensor_objid", "sensor_refid")}
+_OBJTYPE_TAGNAMES = {"body": 1, "xbody": 2, "joint": 3, "geom": 5, "site": 6, "camera": 7, "light": 8}
+
+
+def _src_references(src):
+    """what the SOURCE says: contact pairs as a sorted list of {geom1, geom2} name sets, tuple elements and sensor objects/references
+    as ordered lists of (objtype code, name); None if the source cannot be parsed"""
+    try:
+        root = ET.fromstring(src)
+    except (ET.ParseError, ValueError):
+        return None
+    pairs = sorted(tuple(sorted((e.get("geom1", ""), e.get("geom2", "")))) for c in root.iter("contact") for e in c if e.tag == "pair")
+    tup = [(_OBJTYPE_TAGNAMES.get(e.get("objtype"), -1), e.get("objname")) for c in root.iter("custom") for t in c if t.tag == "tuple" for e in t]
+    return {"pair": pairs, "tuple": tup}
+
+
+def _model_references(m):
+    g = lambda i: m.name(5, int(i)) or "#%d" % int(i)
+    pairs = sorted(tuple(sorted((g(a), g(b)))) for a, b in zip(m["pair_geom1"], m["pair_geom2"]))
+    tup = [(int(t), m.name(int(t), int(i)) if int(t) in _OBJTYPE_TAGNAMES.values() else None) for t, i in zip(m["tuple_objtype"], m["tuple_objid"])] \
+        if m.n("ntuple") else []
+    sens = [(int(t), m.name(int(t), int(i)) if int(t) in _OBJTYPE_TAGNAMES.values() and int(i) >= 0 else None, int(rt),
+             m.name(int(rt), int(ri)) if int(rt) in _OBJTYPE_TAGNAMES.values() and int(ri) >= 0 else None)
+            for t, i, rt, ri in zip(m["sensor_objtype"], m["sensor_objid"], m["sensor_reftype"], m["sensor_refid"])] if m.n("nsensor") else []
+    return {"pair": pairs, "tuple": tup, "sensor": sens}
+
+
+def confirm_fusestatic_stale_ids(L, src, m1, m2, diffs, digits, path, align, own, ign=()):
+    """findings/C32-fusestatic-stale-reference-ids.md. -> {family: evidence} for the families (pair / tuple / sensor) whose id columns differ
+    between the first compile and the reload and for which ALL of this holds on the case at hand:
+    (1) the element names of every family are the same in m1 and m2 (same elements, same numbering), so the ids are comparable;
+    (2) the names the reloaded model's ids point at are the ones the SOURCE names (pairs, tuples; for sensors: the names m2 points at are
+        the names the same source points at when compiled WITHOUT fusestatic), while the first compile points at other elements;
+    (3) counterfactual: the same source with fusestatic="false", saved the same way, round-trips without any difference in these columns."""
+    fields = {d[1] for d in diffs}
+    fams = [f for f, cols in _STALE_FIELDS.items() if fields & set(cols)]
+    if not fams or src is None or not _names_equal(m1, m2):
+        return {}
+    ref = _src_references(src)
+    if ref is None:
+        return {}
+    alt = re.sub(r'\bfusestatic\s*=\s*"true"', 'fusestatic="false"', src)
+    r = _roundtrip_models(L, alt, digits, path)
+    if r is None:
+        return {}
+    own.extend(r[:2])
+    dn, _ = compare(r[0], r[1], digits, align=align, ignore_sizes=ign)
+    if {d[1] for d in dn} & {c for cols in _STALE_FIELDS.values() for c in cols}:
+        return {}
+    ref["sensor"] = _model_references(r[0])["sensor"]      # sensor targets as resolved without fusestatic (ids differ there, names do not)
+    r1, r2 = _model_references(m1), _model_references(m2)
+    out = {}
+    for f in fams:
+        if r2[f] == ref[f] and r1[f] != ref[f]:
+            wrong = [(a, b) for a, b in zip(r1[f], r2[f]) if a != b][:4]
+            out[f] = {"first_compile_points_at": [str(a) for a, _ in wrong], "source_and_reload_name": [str(b) for _, b in wrong],
+                      "same_source_without_fusestatic_round_trips": True}
+    return out
+
+
 _MASS_FIELDS = {"body_mass", "body_inertia", "body_inertia_tensor"}
 
 
@@ -1433,6 +1502,15 @@ def _report(P, L, c, name, tags, m1, m2, t1, diffs, src, nested, digits, path, a
             if bad or rest is None:
                 return  # ids no longer correspond (or body/joint order changed: the whole dof/tree layout follows)
             diffs, m1 = rest, pm1  # from here on m1 is addressed with m2's element numbering
+        # ---- fusestatic: stale name->id maps (pairs / tuples / sensors of the FIRST compile point at the wrong elements)
+        if "fusestatic" in flags and not any(d[0] == "size" for d in diffs):
+            st = confirm_fusestatic_stale_ids(L, src, m1, m2, diffs, digits, path, align, own, ign)
+            for fam, ev in sorted(st.items()):
+                P.violation(gen2 + "fusestatic-first-compile-resolves-references-through-stale-ids:" + fam, dict(base, mechanism_evidence=ev))
+            gone = {c for fam in st for c in _STALE_FIELDS[fam]}
+            diffs = [x for x in diffs if x[1] not in gone]
+            if st and not diffs:
+                return
         # ---- per-field mechanisms
         roots, v6 = confirm_vec6(m1, m2, t1, diffs, digits, align, ign)
         if v6:
@@ -1651,6 +1729,11 @@ TARGETED = [
     ("nested-default-parents", """<mujoco><default><geom rgba="1 0 0 1"/><default class="p"><geom size=".11" friction="0.5"/><default class="q"><geom condim="4" rgba="0 1 0 1"/><default class="r"><geom solmix="2"/></default></default></default>
      <default class="other"><geom type="box" size=".1 .2 .3"/></default></default>
      <worldbody><body childclass="q"><joint/><geom name="g1"/><geom name="g2" class="r" pos=".3 0 0"/><geom name="g3" class="other" pos="-.4 0 0"/><body childclass="other" pos="0 0 1"><joint/><geom name="g4"/><geom name="g5" class="p" pos=".5 0 0"/></body></body></worldbody></mujoco>"""),
+    ("fusestatic-references-behind-a-fused-body", """<mujoco><compiler fusestatic="true"/><worldbody><body name="A"><joint/><geom name="g1" size=".1"/><site name="s1" pos="0 0 .3"/>
+     <body name="X" pos="0 0 .5"><joint/><geom name="g3" size=".1"/><site name="s3" pos="0 0 .3"/></body>
+     <body name="Y" pos="0 .5 0"><geom name="g4" size=".1"/><geom name="g5" size=".1" pos=".3 0 0"/><site name="s5"/></body></body></worldbody>
+     <sensor><framepos name="fp" objtype="geom" objname="g5"/><framepos name="fs" objtype="site" objname="s5"/></sensor>
+     <contact><pair geom1="g5" geom2="g3"/></contact><custom><tuple name="t"><element objtype="geom" objname="g5"/></tuple></custom></mujoco>"""),
     ("all-default-first-key", """<mujoco><worldbody><body><joint name="j"/><geom size=".1"/></body></worldbody><keyframe><key/><key name="k1" qpos="0.5"/><key name="k2" time="2" qvel="1"/></keyframe></mujoco>"""),
 ]
 
@@ -1674,23 +1757,25 @@ def _cases(ctx):
             cs.append(dict(kind="xml", xml=xml, label=label, tags=[label], path_mode=pm))
         cs.append(dict(kind="xml", xml=xml, label=label, tags=[label], path_mode="spec", digits=8))
     ngen = ctx.pick(260, 2600)
-    keys = ["compiler", "option", "visual", "statistic", "assets", "mesh", "hfield", "user", "defaults", "frames", "replicate", "custom", "keyframes",
-            "tristate"]
+    keys = ["compiler", "option", "visual", "statistic", "assets", "mesh", "hfield", "user", "defaults", "frames", "replicate", "custom", "keyframes"]
+    trs = ctx.subrng("tristate")   # own stream: the case list of the other features stays what it was before this feature existed
     for i in range(ngen):
         feats = {k: bool(rng.random() < 0.6) for k in keys}
         feats["frame_interleave"] = bool(rng.random() < 0.25)
         feats["alignfree"] = bool(rng.random() < 0.15)
         feats["default_key"] = bool(rng.random() < 0.15)
         feats["rough_vectors"] = bool(rng.random() < 0.25)
+        feats["tristate"] = int(trs.integers(1, 2 ** 31)) if trs.random() < 0.5 else 0      # seed of the tri-state decoration, 0 = off
         c = dict(kind="gen", mseed=int(rng.integers(0, 2 ** 31)), feats=feats, path_mode=["spec", "copyback"][i % 2])
         if i % 6 == 5:
             c["digits"] = int(rng.integers(6, 13))
         cs.append(c)
+    crng = ctx.subrng("conditional-attribute models")      # own stream (see trs above)
     for kind, n in (("tri", ctx.pick(90, 600)), ("tcond", ctx.pick(60, 400))):
         for i in range(n):
-            c = dict(kind=kind, mseed=int(rng.integers(0, 2 ** 31)), path_mode=["spec", "copyback"][i % 2])
+            c = dict(kind=kind, mseed=int(crng.integers(0, 2 ** 31)), path_mode=["spec", "copyback"][i % 2])
             if i % 7 == 6:
-                c["digits"] = int(rng.integers(8, 13))
+                c["digits"] = int(crng.integers(8, 13))
             cs.append(c)
     for i in range(ctx.pick(40, 400)):
         c = dict(kind="spec", mseed=int(rng.integers(0, 2 ** 31)), path_mode=["spec", "copyback"][i % 2])
